@@ -1242,8 +1242,11 @@ func main() {
 	}
 	res := lib.NewResult("C13", f)
 	distinct := lib.NewDistinct()
-	na := partA(f, res, d, distinct)
-	nb := partB(f, res, d, distinct, work)
+	var na, nb int64
+	if os.Getenv("C13_ONLY") != "histories" { // (development aid: the histories alone)
+		na = partA(f, res, d, distinct)
+		nb = partB(f, res, d, distinct, work)
+	}
 	nh := partH(f, res, distinct, work)
 	d.Close()
 	res.DistinctNontrivial = na + nb + nh
